@@ -334,6 +334,7 @@ func parseKeyValuePairs(remainder []byte, map_values MappingValues, errs []error
 	for {
 		if shouldStopLoop(pairCount, remainder, previousLength) {
 			errs = appendMaxPairsError(errs, pairCount)
+			errs = appendTrailingBytesError(errs, pairCount, remainder)
 			break
 		}
 
@@ -362,6 +363,17 @@ func parseKeyValuePairs(remainder []byte, map_values MappingValues, errs []error
 func appendMaxPairsError(errs []error, pairCount int) []error {
 	if pairCount >= MAX_MAPPING_PAIRS {
 		errs = append(errs, oops.Errorf("exceeded maximum mapping pairs (%d)", MAX_MAPPING_PAIRS))
+	}
+	return errs
+}
+
+// appendTrailingBytesError reports bytes that are left inside the declared mapping
+// size but are too few to form a key/value pair. Dropping them silently would let
+// a structure re-serialise (and its signature verify) as if those bytes had never
+// been on the wire. Mappings that already carry an error are left as they are.
+func appendTrailingBytesError(errs []error, pairCount int, remainder []byte) []error {
+	if len(errs) == 0 && pairCount < MAX_MAPPING_PAIRS && len(remainder) > 0 {
+		errs = append(errs, oops.Errorf("mapping format violation: %d trailing bytes inside the mapping do not form a key/value pair", len(remainder)))
 	}
 	return errs
 }
